@@ -232,3 +232,95 @@ class Regions:
 
     def all_regions(self):
         return list(range(self.n))
+
+
+class RegionEval:
+    """Element-wise evaluation of a term for ONE abstract element: real-valued sub-terms evaluate to a region index,
+    boolean ones to bool, small integers (call codes) to int. `env` maps atom terms to ('r', region) / ('b', bool) /
+    ('i', int). Anything not understood raises AnalysisError (never a guess)."""
+
+    def __init__(self, regions, env, fold=None):
+        self.R = regions
+        self.env = env
+        self.fold = fold or (lambda t: None)
+
+    def ev(self, t):
+        if t in self.env:
+            return self.env[t]
+        f = self.fold(t)
+        if f is not None:
+            return self.ev(f)
+        k = t[0]
+        if k == "const":
+            v = t[1]
+            if isinstance(v, bool):
+                return ("b", v)
+            if isinstance(v, (int, float)):
+                return ("c", v)  # a constant: region decided on use
+            raise AnalysisError(f"constant {v!r} in call logic")
+        if k == "attr" and t[2] in IDENT_ATTRS:
+            return self.ev(t[1])
+        if k == "sub":
+            # x[mask] / x[idx]: element-wise view of the same element
+            return self.ev(t[1])
+        if k == "call":
+            f = t[1]
+            if f[0] == "attr" and f[2] in IDENT_METHODS:
+                return self.ev(f[1])
+            name = f[1].split(".")[-1] if f[0] == "global" else (f[2] if f[0] == "attr" else None)
+            if name == "where" and len(t[2]) == 3:
+                c = self.ev(t[2][0])
+                if c[0] != "b":
+                    raise AnalysisError("np.where condition is not boolean")
+                return self._val(self.ev(t[2][1] if c[1] else t[2][2]))
+            if name in ("maximum", "minimum") and len(t[2]) == 2:
+                a, b = self._val(self.ev(t[2][0])), self._val(self.ev(t[2][1]))
+                # exact only if one side is a boundary point
+                if a[1] % 2 == 1 or b[1] % 2 == 1 or a[1] != b[1]:
+                    return ("r", max(a[1], b[1]) if name == "maximum" else min(a[1], b[1]))
+                return a
+            if name == "isclose" and len(t[2]) >= 2:
+                a, b = self.ev(t[2][0]), self.ev(t[2][1])
+                if a[0] == "i" and b[0] == "c":
+                    return ("b", a[1] == b[1])
+                raise AnalysisError("np.isclose on values outside the call-code domain")
+            raise AnalysisError(f"call {ir.show(t, maxdepth=2)} not interpretable in the region domain")
+        if k == "cmp":
+            a, b = self.ev(t[2]), self.ev(t[3])
+            op = t[1]
+            if a[0] == "c" and b[0] == "r":
+                a, b = b, a
+                op = {"<": ">", ">": "<", "<=": ">=", ">=": "<=", "==": "==", "!=": "!="}[op]
+            if a[0] == "r" and b[0] == "c":
+                return ("b", self.R.cmp_const(a[1], op, b[1]))
+            if a[0] == "i" and b[0] == "c":
+                return ("b", {"<": a[1] < b[1], ">": a[1] > b[1], "==": a[1] == b[1], "!=": a[1] != b[1],
+                              "<=": a[1] <= b[1], ">=": a[1] >= b[1]}[op])
+            raise AnalysisError(f"comparison {ir.show(t, maxdepth=3)} not decidable on the region domain")
+        if k == "bin" and t[1] in ("&", "|"):
+            a, b = self.ev(t[2]), self.ev(t[3])
+            if a[0] == "b" and b[0] == "b":
+                return ("b", (a[1] and b[1]) if t[1] == "&" else (a[1] or b[1]))
+            raise AnalysisError("& / | on non-boolean values")
+        if k == "un" and t[1] in ("~", "not"):
+            a = self.ev(t[2])
+            if a[0] == "b":
+                return ("b", not a[1])
+            raise AnalysisError("~ on a non-boolean value")
+        if k == "setitem":
+            # x[mask] = v   (element-wise)
+            m = self.ev(t[2])
+            if m[0] != "b":
+                raise AnalysisError("mask assignment with a non-boolean mask")
+            return self._val(self.ev(t[3] if m[1] else t[1]))
+        if k == "phi":
+            c = self.ev(t[1])
+            if c[0] != "b":
+                raise AnalysisError("branch condition not boolean")
+            return self.ev(t[2] if c[1] else t[3])
+        raise AnalysisError(f"term {ir.show(t, maxdepth=3)} not interpretable in the region domain")
+
+    def _val(self, v):
+        if v[0] == "c":
+            return ("r", self.R.of_const(v[1]))
+        return v
